@@ -101,3 +101,4 @@ open Csproto
 #print axioms Csproto.C01.Source.source_roundtrip_packed_uint64
 #print axioms Csproto.C01.Source.source_roundtrip_packed_int32
 #print axioms Csproto.Bridge.EncoderFuncs.EncodeBytes_refines
+#print axioms Csproto.C01.Source.source_roundtrip_bytes
